@@ -627,3 +627,353 @@ Proof.
   unfold utf8_encode. induction cps as [|c cps IH]; cbn [flat_map]; [constructor|].
   apply wf_bytes_app_intro; [apply utf8_encode_cp_wf | exact IH].
 Qed.
+
+(* ------------------------------------------------------------------ *)
+(* RC4 output bytes are bytes (for every key, even an ill-formed one) *)
+
+Definition rc4_state_wf (S : list N) : Prop := Forall (fun b => b < 256) S.
+
+Lemma rc4_get_wf S i : rc4_state_wf S -> rc4_get S i < 256.
+Proof.
+  intros H. unfold rc4_get. generalize (N.to_nat i) as n.
+  induction H as [|x S Hx HS IH]; intros [|n]; cbn [nth]; auto; lia.
+Qed.
+
+Lemma rc4_set_wf S i v : rc4_state_wf S -> v < 256 -> rc4_state_wf (rc4_set S i v).
+Proof.
+  intros H Hv. unfold rc4_set, rc4_state_wf in *. generalize (N.to_nat i) as n.
+  induction H as [|x S Hx HS IH]; intros [|n]; cbn [rc4_set_nat]; constructor; auto.
+Qed.
+
+Lemma rc4_swap_wf S i j : rc4_state_wf S -> rc4_state_wf (rc4_swap S i j).
+Proof. intros H. unfold rc4_swap. auto using rc4_set_wf, rc4_get_wf. Qed.
+
+Lemma rc4_iota_wf n from : from + N.of_nat n <= 256 -> rc4_state_wf (rc4_iota n from).
+Proof.
+  revert from; induction n as [|n IH]; intros from H; cbn [rc4_iota]; constructor; [lia|].
+  apply IH. lia.
+Qed.
+
+Lemma rc4_ksa_loop_wf n key keylen i j S : rc4_state_wf S -> rc4_state_wf (rc4_ksa_loop n key keylen i j S).
+Proof.
+  revert i j S; induction n as [|n IH]; intros i j S H; cbn [rc4_ksa_loop]; [exact H|].
+  apply IH, rc4_swap_wf, H.
+Qed.
+
+Lemma rc4_ksa_wf key : rc4_state_wf (rc4_ksa key).
+Proof. unfold rc4_ksa. apply rc4_ksa_loop_wf. apply rc4_iota_wf. reflexivity. Qed.
+
+Lemma rc4_prga_wf S i j data : rc4_state_wf S -> wf_bytes data -> wf_bytes (rc4_prga S i j data).
+Proof.
+  intros HS Hd. revert S i j HS. induction Hd as [|x r Hx Hr IH]; intros S i j HS; cbn [rc4_prga].
+  - constructor.
+  - constructor.
+    + apply lxor_byte; [exact Hx|]. apply rc4_get_wf, rc4_swap_wf, HS.
+    + apply IH, rc4_swap_wf, HS.
+Qed.
+
+Lemma rc4_wf key data : wf_bytes data -> wf_bytes (rc4 key data).
+Proof. intros H. apply rc4_prga_wf; [apply rc4_ksa_wf | exact H]. Qed.
+
+(* ------------------------------------------------------------------ *)
+(* AES output bytes are bytes when key and block are *)
+
+Lemma nth_Forall {A} (P : A -> Prop) l n d : Forall P l -> P d -> P (nth n l d).
+Proof. intros H Hd. revert n; induction H as [|x l Hx Hl IH]; intros [|n]; cbn [nth]; auto. Qed.
+
+Lemma aes_sbox_wf : Forall (Forall (fun b => b < 256)) aes_sbox.
+Proof. unfold aes_sbox. repeat constructor. Qed.
+Lemma aes_inv_sbox_wf : Forall (Forall (fun b => b < 256)) aes_inv_sbox.
+Proof. unfold aes_inv_sbox. repeat constructor. Qed.
+
+Lemma box_lookup_wf box b : Forall (Forall (fun b => b < 256)) box -> box_lookup box b < 256.
+Proof.
+  intros H. unfold box_lookup.
+  apply (nth_Forall (fun b => b < 256)); [|reflexivity].
+  apply (nth_Forall (Forall (fun b => b < 256))); [exact H | constructor].
+Qed.
+
+Lemma sub_byte_wf b : sub_byte b < 256.
+Proof. apply box_lookup_wf, aes_sbox_wf. Qed.
+Lemma inv_sub_byte_wf b : inv_sub_byte b < 256.
+Proof. apply box_lookup_wf, aes_inv_sbox_wf. Qed.
+
+Lemma map_wf (f : N -> N) l : (forall b, f b < 256) -> wf_bytes (map f l).
+Proof. intros H. unfold wf_bytes. induction l; cbn [map]; constructor; auto. Qed.
+
+(* finite sweep over all byte values, lifted to a universally quantified statement *)
+Lemma in_rc4_iota b n from : from <= b < from + N.of_nat n -> In b (rc4_iota n from).
+Proof.
+  revert from; induction n as [|n IH]; intros from H; cbn [rc4_iota]; [lia|].
+  destruct (N.eq_dec from b) as [->|Hne]; [left; reflexivity|].
+  right. apply IH. lia.
+Qed.
+
+Lemma byte_sweep (P : N -> bool) :
+  forallb P (rc4_iota 256 0) = true -> forall b, b < 256 -> P b = true.
+Proof.
+  intros H b Hb. rewrite forallb_forall in H. apply H. apply in_rc4_iota. cbn. lia.
+Qed.
+
+Lemma xtime_wf b : b < 256 -> xtime b < 256.
+Proof.
+  intros Hb. apply N.ltb_lt.
+  apply (byte_sweep (fun b => xtime b <? 256)); [vm_compute; reflexivity | exact Hb].
+Qed.
+
+Lemma gmul_loop_wf n a b : a < 256 -> gmul_loop n a b < 256.
+Proof.
+  revert a b; induction n as [|n IH]; intros a b Ha; cbn [gmul_loop]; [reflexivity|].
+  apply lxor_byte; [destruct (N.odd b); [exact Ha | reflexivity] | apply IH, xtime_wf, Ha].
+Qed.
+
+Lemma gmul_wf a b : a < 256 -> gmul a b < 256.
+Proof. apply gmul_loop_wf. Qed.
+
+Lemma rcon_pow_wf n : rcon_pow n < 256.
+Proof. induction n as [|n IH]; cbn [rcon_pow]; [reflexivity | now apply xtime_wf]. Qed.
+
+Lemma rcon_wf i : wf_bytes (rcon i).
+Proof. unfold rcon. repeat constructor. apply rcon_pow_wf. Qed.
+
+Lemma key_words_wf key : wf_bytes key -> Forall wf_bytes (key_words key).
+Proof.
+  intros H.
+  assert (G : forall n l, (length l <= n)%nat -> wf_bytes l -> Forall wf_bytes (key_words l)).
+  { induction n as [|n IH]; intros l Hl Hw.
+    - destruct l; [constructor | cbn in Hl; lia].
+    - destruct l as [|a [|b [|c [|d r]]]]; cbn [key_words]; try constructor.
+      + inversion_clear Hw as [|? ? Ha Hw1]. inversion_clear Hw1 as [|? ? Hb Hw2].
+        inversion_clear Hw2 as [|? ? Hc Hw3]. inversion_clear Hw3 as [|? ? Hd Hw4].
+        repeat constructor; assumption.
+      + apply IH; [cbn [length] in Hl; lia|].
+        do 4 (inversion_clear Hw as [|? ? _ Hw']; rename Hw' into Hw). exact Hw. }
+  apply (G (length key)); [lia | exact H].
+Qed.
+
+Lemma rot_word_wf w : wf_bytes w -> wf_bytes (rot_word w).
+Proof.
+  intros H. destruct w as [|a r]; [constructor|]. cbn [rot_word].
+  inversion_clear H. apply wf_bytes_app_intro; [assumption | repeat constructor; assumption].
+Qed.
+
+Lemma sub_word_wf w : wf_bytes (sub_word w).
+Proof. apply map_wf, sub_byte_wf. Qed.
+
+Lemma expand_loop_wf n Nk i racc : Forall wf_bytes racc -> Forall wf_bytes (expand_loop n Nk i racc).
+Proof.
+  revert i racc; induction n as [|n IH]; intros i racc H; cbn [expand_loop]; [exact H|].
+  apply IH. constructor; [|exact H].
+  assert (Ht : wf_bytes (hd [] racc)) by (destruct H; [constructor | assumption]).
+  apply wf_xor_bytes.
+  - apply (nth_Forall wf_bytes); [exact H | constructor].
+  - destruct (Nat.eqb _ 0).
+    + apply wf_xor_bytes; [apply sub_word_wf | apply rcon_wf].
+    + destruct (_ && _); [apply sub_word_wf | exact Ht].
+Qed.
+
+Lemma round_keys_of_wf ws : Forall wf_bytes ws -> Forall wf_bytes (round_keys_of ws).
+Proof.
+  intros H.
+  assert (G : forall n l, (length l <= n)%nat -> Forall wf_bytes l -> Forall wf_bytes (round_keys_of l)).
+  { induction n as [|n IH]; intros l Hl Hw.
+    - destruct l; [constructor | cbn in Hl; lia].
+    - destruct l as [|a [|b [|c [|d r]]]]; cbn [round_keys_of]; try constructor.
+      + inversion_clear Hw as [|? ? Ha Hw1]. inversion_clear Hw1 as [|? ? Hb Hw2].
+        inversion_clear Hw2 as [|? ? Hc Hw3]. inversion_clear Hw3 as [|? ? Hd Hw4].
+        repeat apply wf_bytes_app_intro; assumption.
+      + apply IH; [cbn [length] in Hl; lia|].
+        do 4 (inversion_clear Hw as [|? ? _ Hw']; rename Hw' into Hw). exact Hw. }
+  apply (G (length ws)); [lia | exact H].
+Qed.
+
+Lemma aes_round_keys_wf key : wf_bytes key -> Forall wf_bytes (aes_round_keys key).
+Proof.
+  intros H. unfold aes_round_keys, key_expansion. apply round_keys_of_wf.
+  apply Forall_rev. apply expand_loop_wf. apply Forall_rev. now apply key_words_wf.
+Qed.
+
+Lemma select_wf tbl st : wf_bytes st -> wf_bytes (select tbl st).
+Proof.
+  intros H. unfold select, wf_bytes. induction tbl as [|i tbl IH]; cbn [map]; constructor; [|exact IH].
+  apply (nth_Forall (fun b => b < 256)); [exact H | reflexivity].
+Qed.
+
+Lemma xor4_wf a b c d : a < 256 -> b < 256 -> c < 256 -> d < 256 -> xor4 a b c d < 256.
+Proof. intros. unfold xor4. auto using lxor_byte. Qed.
+
+Lemma map_columns_wf f st :
+  (forall a b c d, a < 256 -> b < 256 -> c < 256 -> d < 256 -> wf_bytes (f a b c d)) ->
+  wf_bytes st -> wf_bytes (map_columns f st).
+Proof.
+  intros Hf H.
+  assert (G : forall n l, (length l <= n)%nat -> wf_bytes l -> wf_bytes (map_columns f l)).
+  { induction n as [|n IH]; intros l Hl Hw.
+    - destruct l; [constructor | cbn in Hl; lia].
+    - destruct l as [|a [|b [|c [|d r]]]]; cbn [map_columns]; try constructor.
+      inversion_clear Hw as [|? ? Ha Hw1]. inversion_clear Hw1 as [|? ? Hb Hw2].
+      inversion_clear Hw2 as [|? ? Hc Hw3]. inversion_clear Hw3 as [|? ? Hd Hw4].
+      apply wf_bytes_app_intro; [apply Hf; assumption|].
+      apply IH; [cbn [length] in Hl; lia | exact Hw4]. }
+  apply (G (length st)); [lia | exact H].
+Qed.
+
+Lemma mix_columns_wf st : wf_bytes st -> wf_bytes (mix_columns st).
+Proof.
+  apply map_columns_wf. intros a b c d Ha Hb Hc Hd. unfold mix_column.
+  repeat constructor; apply xor4_wf; try assumption; apply gmul_wf; reflexivity.
+Qed.
+
+Lemma inv_mix_columns_wf st : wf_bytes st -> wf_bytes (inv_mix_columns st).
+Proof.
+  apply map_columns_wf. intros a b c d Ha Hb Hc Hd. unfold inv_mix_column.
+  repeat constructor; apply xor4_wf; apply gmul_wf; reflexivity.
+Qed.
+
+Lemma cipher_rounds_wf rks st : Forall wf_bytes rks -> wf_bytes st -> wf_bytes (cipher_rounds rks st).
+Proof.
+  intros Hr; revert st; induction Hr as [|rk rks Hrk Hrks IH]; intros st H; [exact H|].
+  cbn [cipher_rounds]. destruct rks as [|rk' rks'].
+  - apply wf_xor_bytes; [|exact Hrk]. apply select_wf, map_wf, sub_byte_wf.
+  - apply IH. apply wf_xor_bytes; [|exact Hrk]. apply mix_columns_wf, select_wf, map_wf, sub_byte_wf.
+Qed.
+
+Lemma aes_cipher_wf rks block : Forall wf_bytes rks -> wf_bytes block -> wf_bytes (aes_cipher rks block).
+Proof.
+  intros Hr H. destruct Hr as [|rk0 rks Hrk0 Hrks]; [exact H|].
+  cbn [aes_cipher]. apply cipher_rounds_wf; [exact Hrks|]. now apply wf_xor_bytes.
+Qed.
+
+Lemma inv_cipher_rounds_wf rrks st : Forall wf_bytes rrks -> wf_bytes st -> wf_bytes (inv_cipher_rounds rrks st).
+Proof.
+  intros Hr; revert st; induction Hr as [|rk rks Hrk Hrks IH]; intros st H; [exact H|].
+  cbn [inv_cipher_rounds]. destruct rks as [|rk' rks'].
+  - apply wf_xor_bytes; [|exact Hrk]. apply map_wf, inv_sub_byte_wf.
+  - apply IH. apply inv_mix_columns_wf. apply wf_xor_bytes; [|exact Hrk]. apply map_wf, inv_sub_byte_wf.
+Qed.
+
+Lemma aes_inv_cipher_wf rrks block : Forall wf_bytes rrks -> wf_bytes block -> wf_bytes (aes_inv_cipher rrks block).
+Proof.
+  intros Hr H. destruct Hr as [|rk0 rks Hrk0 Hrks]; [exact H|].
+  cbn [aes_inv_cipher]. apply inv_cipher_rounds_wf; [exact Hrks|]. now apply wf_xor_bytes.
+Qed.
+
+Lemma aes_encrypt_wf key block : wf_bytes key -> wf_bytes block -> wf_bytes (aes_encrypt key block).
+Proof. intros Hk Hb. apply aes_cipher_wf; [now apply aes_round_keys_wf | exact Hb]. Qed.
+Lemma aes_decrypt_wf key block : wf_bytes key -> wf_bytes block -> wf_bytes (aes_decrypt key block).
+Proof. intros Hk Hb. apply aes_inv_cipher_wf; [apply Forall_rev; now apply aes_round_keys_wf | exact Hb]. Qed.
+
+Lemma cmac_aes_length key msg : length (cmac_aes key msg) = 16%nat.
+Proof.
+  unfold cmac_aes.
+  (* the tag is the output of the cipher on a 16-byte block; every block fed to E has 16 bytes *)
+  unfold cmac_spec, cmac. destruct (cmac_subkeys _ 16) as [K1 K2].
+  assert (HC : length (zeros 16) = 16%nat) by reflexivity. revert HC.
+  generalize (zeros 16) as C.
+  assert (Hch : Forall (fun b => (length b <= 16)%nat) (chunks 16 msg)).
+  { unfold chunks. generalize (length msg) as fuel. intros fuel; revert msg.
+    induction fuel as [|fuel IH]; intros msg; cbn [chunks_fuel]; [constructor|].
+    destruct msg as [|x msg']; [constructor|]. constructor; [|apply IH].
+    rewrite firstn_length. lia. }
+  induction Hch as [|m r Hm Hr IH]; intros C HC; cbn [cmac_loop].
+  - apply aes_cipher_length. rewrite !length_xor_bytes. reflexivity.
+  - destruct r as [|m' r'].
+    + destruct (Nat.eqb_spec (length m) 16) as [E|NE]; apply aes_cipher_length; rewrite !length_xor_bytes.
+      * exact E.
+      * rewrite app_length. cbn [length]. rewrite length_zeros. lia.
+    + apply IH. apply aes_cipher_length. rewrite length_xor_bytes. exact HC.
+Qed.
+
+(* ------------------------------------------------------------------ *)
+(* block-wise absorption: facts for reasoning about streaming (Write/Sum) implementations *)
+
+Lemma mod_SSSS n : Nat.modulo (S (S (S (S n)))) 4 = Nat.modulo n 4.
+Proof. replace (S (S (S (S n)))) with (n + 1 * 4)%nat by lia. apply Nat.mod_add. discriminate. Qed.
+
+Lemma words_le_app a b :
+  Nat.modulo (length a) 4 = 0%nat -> words_le (a ++ b) = words_le a ++ words_le b.
+Proof.
+  assert (G : forall n a, (length a <= n)%nat -> Nat.modulo (length a) 4 = 0%nat ->
+                          words_le (a ++ b) = words_le a ++ words_le b).
+  { induction n as [|n IH]; intros l Hl Hm.
+    - destruct l; [reflexivity | cbn in Hl; lia].
+    - destruct l as [|x0 [|x1 [|x2 [|x3 r]]]]; try reflexivity; try (cbn in Hm; discriminate Hm).
+      cbn [length] in Hm, Hl. rewrite mod_SSSS in Hm.
+      cbn [app words_le]. rewrite IH; [reflexivity | lia | exact Hm]. }
+  apply (G (length a)). lia.
+Qed.
+
+Lemma words_be_app a b :
+  Nat.modulo (length a) 4 = 0%nat -> words_be (a ++ b) = words_be a ++ words_be b.
+Proof.
+  assert (G : forall n a, (length a <= n)%nat -> Nat.modulo (length a) 4 = 0%nat ->
+                          words_be (a ++ b) = words_be a ++ words_be b).
+  { induction n as [|n IH]; intros l Hl Hm.
+    - destruct l; [reflexivity | cbn in Hl; lia].
+    - destruct l as [|x0 [|x1 [|x2 [|x3 r]]]]; try reflexivity; try (cbn in Hm; discriminate Hm).
+      cbn [length] in Hm, Hl. rewrite mod_SSSS in Hm.
+      cbn [app words_be]. rewrite IH; [reflexivity | lia | exact Hm]. }
+  apply (G (length a)). lia.
+Qed.
+
+Lemma length_words_le l : length (words_le l) = Nat.div (length l) 4.
+Proof.
+  assert (G : forall n l, (length l <= n)%nat -> length (words_le l) = Nat.div (length l) 4).
+  { induction n as [|n IH]; intros l0 Hl.
+    - destruct l0; [reflexivity | cbn in Hl; lia].
+    - destruct l0 as [|x0 [|x1 [|x2 [|x3 r]]]]; try reflexivity.
+      cbn [length words_le] in *. rewrite IH by lia.
+      replace (S (S (S (S (length r))))) with (1 * 4 + length r)%nat by lia.
+      rewrite Nat.div_add_l by discriminate. reflexivity. }
+  apply (G (length l)). lia.
+Qed.
+
+Lemma length_words_be l : length (words_be l) = Nat.div (length l) 4.
+Proof.
+  assert (G : forall n l, (length l <= n)%nat -> length (words_be l) = Nat.div (length l) 4).
+  { induction n as [|n IH]; intros l0 Hl.
+    - destruct l0; [reflexivity | cbn in Hl; lia].
+    - destruct l0 as [|x0 [|x1 [|x2 [|x3 r]]]]; try reflexivity.
+      cbn [length words_be] in *. rewrite IH by lia.
+      replace (S (S (S (S (length r))))) with (1 * 4 + length r)%nat by lia.
+      rewrite Nat.div_add_l by discriminate. reflexivity. }
+  apply (G (length l)). lia.
+Qed.
+
+Lemma mod_16_add n : Nat.modulo (16 + n) 16 = Nat.modulo n 16.
+Proof. replace (16 + n)%nat with (n + 1 * 16)%nat by lia. apply Nat.mod_add. discriminate. Qed.
+
+Lemma fold_blocks16_app {St} (f : St -> list N -> St) st a b :
+  Nat.modulo (length a) 16 = 0%nat ->
+  fold_blocks16 f st (a ++ b) = fold_blocks16 f (fold_blocks16 f st a) b.
+Proof.
+  assert (G : forall n a st, (length a <= n)%nat -> Nat.modulo (length a) 16 = 0%nat ->
+                             fold_blocks16 f st (a ++ b) = fold_blocks16 f (fold_blocks16 f st a) b).
+  { induction n as [|n IH]; intros l st0 Hl Hm.
+    - destruct l; [reflexivity | cbn in Hl; lia].
+    - do 16 (destruct l as [|? l]; [first [reflexivity | (cbn in Hm; discriminate Hm)] |]).
+      cbn [length] in Hm, Hl.
+      change (S (S (S (S (S (S (S (S (S (S (S (S (S (S (S (S (length l)))))))))))))))))
+        with (16 + length l)%nat in Hm.
+      rewrite mod_16_add in Hm.
+      cbn [app fold_blocks16]. apply IH; [lia | exact Hm]. }
+  apply (G (length a)). lia.
+Qed.
+
+(* the digest in terms of whole blocks absorbed so far and a remainder: the shape of a
+   streaming implementation (state after the full blocks, then padding of the tail) *)
+Lemma md4_split a b : Nat.modulo (length a) 64 = 0%nat ->
+  md4 (a ++ b) =
+  md4_output (md4_blocks (md4_blocks md4_init (words_le a)) (words_le (md_pad_le_from (lenN a) b))).
+Proof.
+  intros H. unfold md4, md4_pad, md4_blocks.
+  assert (H4 : Nat.modulo (length a) 4 = 0%nat).
+  { assert (E := Nat.div_mod (length a) 64 ltac:(discriminate)). rewrite H in E.
+    replace (length a) with ((16 * Nat.div (length a) 64) * 4)%nat by lia. apply Nat.mod_mul. discriminate. }
+  rewrite md_pad_le_app, words_le_app by exact H4.
+  rewrite fold_blocks16_app; [reflexivity|].
+  rewrite length_words_le.
+  assert (E := Nat.div_mod (length a) 64 ltac:(discriminate)). rewrite H in E.
+  replace (length a) with ((16 * Nat.div (length a) 64) * 4)%nat by lia.
+  rewrite Nat.div_mul by discriminate. rewrite Nat.mul_comm. apply Nat.mod_mul. discriminate.
+Qed.
